@@ -1,5 +1,5 @@
 (* C17 — byte and file serialisation (statements; StoreProofs.v) *)
-From BS Require Import Prims BitsCore Search Store StoreProofs SerialProofs.
+From BS Require Import Prims BitsCore Search Store StoreProofs SerialProofs CutProofs Serial2.
 From Coq Require Import String.
 Open Scope Z_scope.
 Theorem C17_bytes_window : forall data l o, 0 <= o -> 0 <= l -> o + l <= zlen data ->
@@ -17,13 +17,31 @@ Theorem C17_chunk_constant_whole_bytes : TOFILE_CHUNK mod 8 = 0 /\ 0 < TOFILE_CH
 Proof. vm_compute. split; [reflexivity|reflexivity]. Qed.
 (* tofile(f) writes exactly tobytes(): for EVERY chunk size that is a positive multiple of 8 (so also at lengths that are exact
    multiples of the chunk size), and in particular for the constant in the source (compared with the source on every run) *)
-Theorem C17_tofile_is_tobytes : forall b chunk, 0 < chunk -> chunk mod 8 = 0 -> tofile b chunk = Ok (tobytes b).
-Proof. exact tofile_eq_tobytes. Qed.
-Theorem C17_tofile_is_tobytes_at_the_real_chunk_size : forall b, tofile b TOFILE_CHUNK = Ok (tobytes b).
-Proof. exact tofile_real_chunk. Qed.
+(* tofile2 mirrors the loop of Bits.tofile as it is now (absolute chunk starts, no dependence on the bit numbering; repaired today: D50);
+   `tofile` is the earlier cut()-based loop, equal to it for every positive chunk size *)
+Theorem C17_tofile_is_tobytes : forall b chunk, 0 < chunk -> chunk mod 8 = 0 -> tofile2 b chunk = Ok (tobytes b).
+Proof. exact tofile2_eq_tobytes. Qed.
+Theorem C17_tofile_is_tobytes_at_the_real_chunk_size : forall b, tofile2 b TOFILE_CHUNK = Ok (tobytes b).
+Proof. exact tofile2_real_chunk. Qed.
+Theorem C17_tofile_same_as_the_cut_loop : forall b chunk, 0 < chunk -> tofile2 b chunk = tofile b chunk.
+Proof. exact tofile2_eq_tofile. Qed.
+(* the writes: ceil(len/chunk) of them, chunk i is b[i*chunk : min((i+1)*chunk, len)], all but the last have exactly `chunk` bits - so only the last write is padded *)
+Theorem C17_tofile_writes : forall b chunk, 0 < chunk ->
+  exists cs, tofile2_chunks b chunk = Ok cs /\ tofile2_writes b chunk = Ok (map tobytes cs) /\
+    zlen cs = cdiv (zlen b) chunk /\ List.concat cs = b /\
+    (forall i, 0 <= i < cdiv (zlen b) chunk ->
+       znth [] cs i = sub b (i * chunk) (Z.min ((i + 1) * chunk) (zlen b)) /\ zlen (znth [] cs i) = Z.min chunk (zlen b - i * chunk) /\
+       0 < zlen (znth [] cs i) <= chunk /\ (i + 1 < cdiv (zlen b) chunk -> zlen (znth [] cs i) = chunk)).
+Proof. exact tofile2_write_count. Qed.
+Theorem C17_tobytes_length : forall b, zlen (tobytes b) = cdiv (zlen b) 8.
+Proof. exact zlen_tobytes. Qed.
+Theorem C17_array_tofile : forall its tr,
+  arr_tofile (List.concat its ++ tr) = Ok (tobytes (List.concat its ++ tr)) /\
+  (Forall (fun it : bits => zlen it mod 8 = 0) its -> arr_tofile (List.concat its ++ tr) = Ok (flat_map tobytes its ++ tobytes tr)).
+Proof. exact arr_tofile_spec. Qed.
 Theorem C17_tobytes_of_concatenation : forall a b, zlen a mod 8 = 0 -> tobytes (a ++ b) = tobytes a ++ tobytes b.
 Proof. exact tobytes_app. Qed.
-Example C17_tofile_example : tofile (of01 "1011001110001111101"%string) 8 = Ok [179; 143; 160].
+Example C17_tofile_example : tofile2 (of01 "1011001110001111101"%string) 8 = Ok [179; 143; 160].
 Proof. vm_compute. reflexivity. Qed.
 Print Assumptions C17_bytes_window.
 Print Assumptions C17_bytes_window_rejects.
@@ -33,3 +51,7 @@ Print Assumptions C17_chunk_constant_whole_bytes.
 Print Assumptions C17_tofile_is_tobytes.
 Print Assumptions C17_tofile_is_tobytes_at_the_real_chunk_size.
 Print Assumptions C17_tobytes_of_concatenation.
+Print Assumptions C17_tofile_same_as_the_cut_loop.
+Print Assumptions C17_tofile_writes.
+Print Assumptions C17_tobytes_length.
+Print Assumptions C17_array_tofile.
